@@ -13,3 +13,33 @@ reg("C13", "runtime monitor: images of the real unranking functions compared wit
 reg("C28", "runtime monitor: OPB text written by the real exporter parsed by an independent parser and evaluated on all assignments against the SAT encoding",
     "Random clause sets and request lists are exported through the real combine_and_save_opb / update_file; an independent OPB evaluator is compared with the SAT encoding and with arithmetic on all 2^n assignments.",
     "Gurobi absent: acceptance of the text by Gurobi is not observed; trusts pycryptosat")
+_R = "reference model R (vlib/ref.py, written from the documentation, imports nothing from sweetpea) inside its decidable region; pycryptosat/pycmsgen/pyunigen as solvers; bounded generator space (T <= 12, <= 600 solutions)"
+reg("C01", "runtime monitor: sequences returned by the real SAT-based samplers and every decoded model of the compiled formula judged by an independent reference model",
+    "Thousands of generated designs (all factor/window/constraint/combinator classes) are run through IterateSATGen, CMSGen, UniGen, IterateGen and UniformGen and, in addition, every projected model of build_cnf(block) is decoded with the real decoder; each sequence is judged by the reference model. Held = no invalid sequence among those observed.", _R)
+reg("C02", "runtime monitor: exhausted IterateSATGen output compared as a multiset with the reference model's enumeration",
+    "For each generated R-decidable design IterateSATGen is asked for more sequences than exist and its output is compared (extra / missing / multiplicity) with the independently enumerated valid set, including empty sets.", _R)
+reg("C03", "runtime monitor: second-extension search on every projected solution of the real compiled formula (incremental SAT under assumptions)",
+    "For each generated design the real build_cnf output is enumerated on the trial variables and each solution is tested for a second full model; full and projected counts are compared on small designs. No reference model involved.",
+    "pycryptosat answers; designs bounded; up to 1500 solutions per design")
+reg("C04", "runtime monitor: sequences returned by the real RandomGen judged by the reference model",
+    "RandomGen is exhausted (or sampled 250 times) on generated designs emphasising its rejection paths; every returned sequence is judged by R.", _R)
+reg("C06", "runtime monitor: exhausted RandomGen output and its reported solution count compared with the reference enumeration",
+    "RandomGen.sample is asked for |R|+25 sequences under a CPU budget; multiset equality with R and, on no-rejection single-round designs, metrics['solution_count'] == |R|.", _R + "; a CPU-budget overrun is inconclusive for that case")
+reg("C07", "runtime monitor: differential comparison of exhausted IterateSATGen and exhausted RandomGen",
+    "Both real samplers are exhausted on fresh builds of the same generated design and their sets of printed sequences compared; no reference model, so R-undecided designs are covered too.",
+    "compared by level names; <= 600 sequences; RandomGen under a CPU budget")
+reg("C08", "runtime monitor: exception / process-death observer around synthesize_trials for four strategies",
+    "Every generated accepted design is synthesized with IterateSATGen, RandomGen, CMSGen and UniGen (the latter in a forked child so that a dying interpreter is observed) with 0, 1 or 3 requested sequences; any escaping exception or death is a violation unless it matches a listed known finding.",
+    "predicates of generated derived levels raise on undocumented arguments (charged to the library); native sampler hangs are inconclusive")
+reg("C09", "runtime monitor: returned-list sizes and duplicate counts for request sizes around the number of solutions",
+    "For small designs the three without-replacement strategies are called with 0,1,2,A-1,A,A+1,3A requested; len == min(requested, A) and per-sequence multiplicities bounded by the reference copy count.", _R)
+reg("C14", "runtime monitor: full variable-table consistency check and decode round trips on real blocks",
+    "On every generated block the complete (trial, factor, level)->variable table is rebuilt through three public accessors, checked for injectivity/range/agreement, decode_variable is inverted, and random one-hot assignments are pushed through the real Gen.decode.",
+    "applicability rule of derived factors as documented (start/stride)")
+reg("C15", "runtime monitor: constructor/synthesis outcome observer for proper, overlapping and incomplete derived-level tables",
+    "Generated derived factors are mutated to overlap or to leave one argument tuple uncovered (None arguments included); the constructor must raise ValueError resp. the samplers must print an error naming the factor and return []; proper tables are checked against the reference derivation.",
+    "argument domain of windows as documented; flat designs only")
+reg("C16", "runtime monitor: reported trial count and lengths of all returned lists compared with the documented arithmetic",
+    "R's trial-count arithmetic (weights, exclusions, preambles, MinimumTrials, modes/alignments, Repeat, Nest) is compared with trials_per_sample() and with every list of every sequence returned by four strategies.", _R)
+reg("C17", "runtime monitor: the real mismatch checker judged against the reference model on valid sequences and in-domain perturbations",
+    "For R-decidable designs, enumerated valid sequences and systematically perturbed ones (classified by R) are given to sample_mismatch_experiment; {} iff valid, and no exception.", _R)
